@@ -32,6 +32,30 @@ def schedule(t0, ttl, j):
     return [t0 + ttl * f + j for f in (500, 850, 900, 950)] + [t0 + 1000 * ttl]
 
 
+def end_of_all_lifetimes(lines):
+    """the first instant after every lifetime started in the history has elapsed"""
+    now, end = 0, 0
+    for l in lines:
+        w = l.split()
+        if w[0] == "ADD":
+            ttl = int(w[1].split(",")[3])
+            end = max(end, now + 1000 * ttl)
+        elif w[0] in ("ADV", "ADVB", "LATE"):
+            now = max(now, int(w[1]))
+    return max(now, end) + 1
+
+
+def lingering(script, impl_lines):
+    """whatever the scheduling was (late firings included): once every lifetime has elapsed and the clock has been
+    advanced exactly past that instant, the cache returns nothing"""
+    if not script.meta.get("settled"):
+        return None
+    last = [l for l in impl_lines if l.startswith("LOOKUP ")]
+    if last and last[-1] != "LOOKUP []":
+        return "code=2 a record is still returned after every lifetime of the history has elapsed: " + last[-1][:200]
+    return None
+
+
 def gen_history(rng, nops, late=False, advb=False, huge=False):
     """advb: some advances stop at an instant with the firing due exactly then still pending (ADVB), so that the
        caller's next action - most often an ADD - is processed before the simultaneously due timer;
@@ -161,7 +185,11 @@ def explore(ctx, project, attribute, replay=None, search_boost=False):
             scripts.append(Script("e%d" % i, "cache", h))
         # late-firing histories: correspondence only (the monitor speaks about exact scheduling)
         nl = 200 if ctx.tier == "quick" else 5000
-        late = [Script("l%d" % i, "cache", gen_history(ctx.rng, ctx.rng.randrange(2, 30), late=True)) for i in range(nl)]
+        late = []
+        for i in range(nl):
+            h = gen_history(ctx.rng, ctx.rng.randrange(2, 30), late=True)
+            h = h[:-1] + ["ADV %d" % end_of_all_lifetimes(h), "LOOKUP - 255"]      # settle exactly, then look
+            late.append(Script("l%d" % i, "cache", h, meta={"settled": True}))
     env = {"VERIF_JITTER_BOUND": "20"}
 
     def classify(kind, detail, s):
@@ -170,7 +198,7 @@ def explore(ctx, project, attribute, replay=None, search_boost=False):
     res = explore_scripts(ctx, scripts, mon_engine="mon-cache", project=project, classify=classify, env=env,
                           attribute=attribute)
     if not replay:
-        res2 = explore_scripts(ctx, late, mon_engine=None, project=project, classify=classify, env=env)
+        res2 = explore_scripts(ctx, late, mon_engine=None, project=project, classify=classify, env=env, judge=lingering)
         res["late_firing_histories"] = res2["evaluations"]
         res["evaluations"] += res2["evaluations"]
         res["traces_validated_against_impl"] += res2["traces_validated_against_impl"]
